@@ -363,8 +363,8 @@ func (e *Env) judgeC11(o *scen.Outcome, t *report.Tally, feat string, sampled *a
 				gotDoc = append(gotDoc, c.Text)
 			}
 		}
-		if strings.Join(gotDoc, "\n") != strings.Join(m.DocText, "\n") {
-			add("func-doc", fmt.Sprintf("doc comment of %s: expected %q, observed %q", m.Name, m.DocText, gotDoc))
+		if wantDoc := gofmtDoc(m.DocText); strings.Join(gotDoc, "\n") != strings.Join(wantDoc, "\n") {
+			add("func-doc", fmt.Sprintf("doc comment of %s: expected %q, observed %q", m.Name, wantDoc, gotDoc))
 		}
 	}
 	// --- imports: every setup import still referenced by the output must still be imported
@@ -458,4 +458,32 @@ func nonImportDecl(f *ast.File, i int) ast.Decl {
 		k++
 	}
 	return f.Decls[len(f.Decls)-1]
+}
+
+// gofmtDoc returns the comment lines as gofmt renders them when they are the doc comment of a top-level function
+// ("unchanged up to gofmt formatting": gofmt moves directive lines to the end of a doc comment, trims empty first and
+// last lines, inserts the space after // and re-indents block comments).
+func gofmtDoc(lines []string) []string {
+	if len(lines) == 0 {
+		return lines
+	}
+	src := "package p\n\n" + strings.Join(lines, "\n") + "\nfunc F() {}\n"
+	out, err := format.Source([]byte(src))
+	if err != nil {
+		return lines
+	}
+	f, err := parser.ParseFile(token.NewFileSet(), "doc.go", out, parser.ParseComments)
+	if err != nil {
+		return lines
+	}
+	for _, d := range f.Decls {
+		if fd, ok := d.(*ast.FuncDecl); ok && fd.Doc != nil {
+			var got []string
+			for _, c := range fd.Doc.List {
+				got = append(got, c.Text)
+			}
+			return got
+		}
+	}
+	return nil
 }
